@@ -3,9 +3,7 @@ package types
 import (
 	"bytes"
 	"fmt"
-	"io/ioutil"
 	"math/big"
-	"os"
 	"time"
 
 	"github.com/ethereum/go-ethereum/common"
@@ -183,17 +181,9 @@ func verifyHeader(
 // in a batch of parents (ascending order) to avoid looking those up from the
 // database. This is useful for concurrently verifying a batch of new headers.
 func VerifyCascadingFields(header Header) error {
-	cachedir, err := ioutil.TempDir("", "")
-	if err != nil {
-		fmt.Println(err)
-		return errEthashStopped
-	}
-	defer os.RemoveAll(cachedir)
-	config := Config{
-		CacheDir:     cachedir,
-		CachesOnDisk: 1,
-	}
-	ethash := New(config, nil, false)
+	// the verification cache is generated in memory: the scratch directory used before was created and removed
+	// for every header (so it was never reused) and made the verdict depend on the node's filesystem and $TMPDIR
+	ethash := New(Config{}, nil, false)
 	defer ethash.Close()
 	if err := ethash.VerifySeal(header.ToVerifyHeader(), false); err != nil {
 		return ErrHeader
